@@ -52,20 +52,75 @@ def build_block(AHP, b):
     return el
 
 
+def build_block_edited(AHP, b, later):
+    """`build_block` for the `edited` variant: plain attributes, class and style start with *other* values; `later`
+    collects the in-place edits (setAttribute, removeClass, style.setProperty) that lead to the values of `b`. The edits
+    run after the whole document has been serialised once, so the tree under test is one that was looked at and then
+    changed through the DOM API (a serialiser that keeps anything from an earlier look shows here)."""
+    if b[0] == 't':
+        return b[1]
+    from .c02 import BOOLEAN
+    keys = [a[0].lower() for a in b[2]]
+    attrs = []
+    edits = []
+    for k, v in b[2]:
+        kl = k.lower()
+        if keys.count(kl) > 1 or v is None or v == '' or kl in BOOLEAN or kl == 'spellcheck' or not kl.replace('-', '').isalnum():
+            attrs.append((k, v))
+        elif kl == 'class':
+            if v.strip() and 'zz' not in v.split():
+                attrs.append((k, 'zz ' + v))
+                edits.append(('class', None))
+            else:
+                attrs.append((k, v))
+        elif kl == 'style':
+            rendered = str(AHP.AdvancedTag('div', [('style', v)]).style)
+            pairs = [tuple(x.split(': ', 1)) for x in rendered.split('; ')] if rendered else []
+            if pairs and all(len(x) == 2 and x[1].strip() for x in pairs):
+                attrs.append((k, '; '.join('%s: zz' % n for n, _ in pairs)))
+                edits.append(('style', pairs))
+            else:
+                attrs.append((k, v))
+        else:
+            attrs.append((k, 'zz'))
+            edits.append((kl, v))
+    el = AHP.AdvancedTag(b[1], attrs, bool(b[3]))
+    if edits:
+        later.append((el, edits))
+    for k in b[4]:
+        el.appendBlock(build_block_edited(AHP, k, later))
+    return el
+
+
 def build_doc(d):
     """Build the document through the public API; returns the parser."""
     import AdvancedHTMLParser as AHP
     p = AHP.AdvancedHTMLParser()
     blocks = d['blocks']
+    later = []
+    mk = (lambda b: build_block_edited(AHP, b, later)) if d.get('via') == 'edited' else (lambda b: build_block(AHP, b))
     if len(blocks) == 1 and blocks[0][0] == 'e':
-        root = build_block(AHP, blocks[0])
+        root = mk(blocks[0])
     else:
         root = AHP.AdvancedTag(WRAPPER)
         for b in blocks:
-            root.appendBlock(build_block(AHP, b))
+            root.appendBlock(mk(b))
     p.setRoot(root)
     if d.get('doctype'):
         p.setDoctype(d['doctype'])
+    if d.get('via') == 'edited':
+        p.getHTML()
+        for el in all_elements(root):
+            el.outerHTML
+        for el, edits in later:
+            for k, v in edits:
+                if k == 'class':
+                    el.removeClass('zz')
+                elif k == 'style':
+                    for n, val in v:
+                        el.style.setProperty(n, val)
+                else:
+                    el.setAttribute(k, v)
     return p
 
 
@@ -167,7 +222,7 @@ class Check(PropCheck):
         n = 30000 if tier == 'thorough' else 3000
         for i in range(n):
             d = self.random_doc(rng)
-            d['via'] = 'api' if i % 3 else 'parse'
+            d['via'] = ('api', 'parse', 'edited')[i % 3] if i % 6 != 4 else 'api'
             if i % 4 == 1:
                 d['reuse'] = True       # the serialisation is parsed by a parser object that parsed another document before
             yield Case(d, 'random')
